@@ -145,6 +145,95 @@ theorem bar_binds_tsc (hinj : Collisionless H) (hs : List Node) (idx : Nat) (h :
       have b := Except.ok.inj hf
       exact rfpTscLoop_inj_leaf H hinj br brT x hs[idx] idx (by omega) (by rw [a, b])
 
+/-! ## the classic format never contains the TSC marker (every argument, also `length` padding) -/
+
+theorem barStep_false_node {hs hs' : List Node} {idx : Nat} {e : Elt Node}
+    (h : barStep false hs idx = .ok (hs', e)) : e ≠ .star := by
+  unfold barStep at h
+  simp only [Bool.false_and, Bool.false_eq_true, if_false] at h
+  split at h
+  · split at h
+    · cases h
+    · split at h
+      · cases h
+      · cases h; intro hc; cases hc
+  · split at h
+    · cases h
+    · cases h; intro hc; cases hc
+
+theorem barLoop_false_nodes :
+    ∀ (n : Nat) (hs : List Node) (idx : Nat) (br br' : List (Elt Node)) (r : Node),
+      (∀ e ∈ br, e ≠ Elt.star) → barLoop H false n hs idx br = .ok (br', r) → ∀ e ∈ br', e ≠ Elt.star
+  | 0, hs, idx, br, br', r, hbr, h => by
+      unfold barLoop at h
+      split at h
+      · cases h
+      · cases h; exact hbr
+  | n + 1, hs, idx, br, br', r, hbr, h => by
+      unfold barLoop at h
+      split at h
+      · cases h
+      · rename_i hs1 e hstep
+        split at h
+        · cases h
+        · refine barLoop_false_nodes n _ _ _ br' r ?_ h
+          intro x hx
+          rcases List.mem_append.mp hx with hx | hx
+          · exact hbr x hx
+          · rw [List.mem_singleton.mp hx]; exact barStep_false_node hstep
+
+/-- **C12 (classic format is star-free).**  Whatever the arguments — any index, any `length`
+padding — a branch returned with `tsc_format=False` contains only nodes, never the `*` marker
+(closes the gap noted for `bar_padding`, which states the fold only through the TSC-aware loop). -/
+theorem bar_classic_starfree (hs : List Node) (index : IntArg) (length : Option IntArg)
+    (br : List (Elt Node)) (r : Node)
+    (h : branchAndRoot H hs index length false = .ok (br, r)) :
+    ∃ nodes : List Node, br = nodes.map .node := by
+  have hall : ∀ e ∈ br, e ≠ Elt.star := by
+    unfold branchAndRoot at h
+    split at h
+    · cases h
+    · split at h
+      · cases h
+      · split at h
+        · exact barLoop_false_nodes H _ _ _ [] br r (by simp) h
+        · cases h
+        · split at h
+          · cases h
+          · exact barLoop_false_nodes H _ _ _ [] br r (by simp) h
+  clear h
+  induction br with
+  | nil => exact ⟨[], rfl⟩
+  | cons e t ih =>
+    obtain ⟨ns, hns⟩ := ih (fun x hx => hall x (List.mem_cons_of_mem _ hx))
+    cases e with
+    | star => exact absurd rfl (hall .star (List.mem_cons_self))
+    | node x => exact ⟨x :: ns, by rw [hns]; rfl⟩
+
+/-- for a star-free branch the TSC-aware client loop is the classic `root_from_proof` loop, so
+`bar_padding`'s fold statement is about the real `root_from_proof` when `tsc_format=False` -/
+theorem rfpTscLoop_map_node (x : Node) (nodes : List Node) (i : Int) :
+    rfpTscLoop H x (nodes.map .node) i = rfpLoop H x nodes i := by
+  induction nodes generalizing x i with
+  | nil => rfl
+  | cons e t ih => simp only [List.map_cons, rfpTscLoop, rfpLoop]; exact ih _ _
+
+/-- **C12 (`length` padding, classic format, real verifier).**  With `tsc_format=False` and any
+padding `l ≥ ⌈log₂ n⌉` the branch is a list of `l` nodes and `root_from_proof(hs[idx], branch, idx)`
+— the real classic verifier — returns the returned root. -/
+theorem bar_padding_classic (hs : List Node) (idx l : Nat) (h : idx < hs.length)
+    (hl : Nat.clog 2 hs.length ≤ l) :
+    ∃ (nodes : List Node) (r : Node),
+      branchAndRoot H hs (.int idx) (some (.int l)) false = .ok (nodes.map .node, r) ∧
+      nodes.length = l ∧ rootFromProof H hs[idx] nodes idx = .ok r := by
+  obtain ⟨br, _, r, hb, _, _, hlen, _, hf⟩ := bar_padding H hs idx l false h hl
+  obtain ⟨nodes, rfl⟩ := bar_classic_starfree H hs _ _ br r hb
+  refine ⟨nodes, r, hb, by simpa using hlen, ?_⟩
+  unfold rootFromProofTsc at hf
+  unfold rootFromProof
+  rw [rfpTscLoop_map_node] at hf
+  exact hf
+
 /-! ## non-vacuity -/
 
 section Examples
